@@ -307,12 +307,16 @@ func runProp(t *testing.T, id string) {
 		nshards = 1
 	}
 	if p.Fixed != nil {
-		for _, c := range p.Fixed(rec, tier, shard, nshards) {
-			// Fixed returns the (already minimised) failing cases it found
+		fails := p.Fixed(rec, tier, shard, nshards)
+		for i, c := range fails {
+			// Fixed returns the (already minimised) failing cases it found; the first becomes the replay
 			violations++
-			err := fmt.Errorf("%s", c.Clause)
-			saveReplay(c, &Violation{Clause: c.Clause, Output: string(c.Output)})
-			t.Errorf("%s violated: %v", id, err)
+			if i == 0 {
+				saveReplay(c, &Violation{Clause: c.Clause, Output: string(c.Output)})
+			}
+			t.Errorf("%s violated: %s", id, c.Clause)
+		}
+		if len(fails) > 0 {
 			return
 		}
 	}
